@@ -77,6 +77,8 @@ def cases(rng, tier):
             c["host_key"] = ["host", "HOST"][len(out) % 4 // 2]
         if len(out) % 5 == 2 and c["body"]:
             c["ctype"] = ["application/x-www-form-urlencoded; charset=UTF-8", "application/x-www-form-urlencoded;charset=utf-8"][len(out) % 2]      # the media type with a parameter
+        if len(out) % 7 == 3:
+            c["late_token"] = True
         if len(out) % 3:
             c["signer"] = ["requests", "httpx"][len(out) % 3 - 1]      # the request goes out through the requests / httpx integration
         k = repr(sorted(c.items(), key=lambda kv: kv[0]))
@@ -115,16 +117,25 @@ def sign(c):
     kw = dict(client_secret=c["cs"], token="tok" if c["token"] else None, token_secret=c["ts"] if c["token"] else None,
               redirect_uri=c["callback"], rsa_key=priv, signature_method=c["sig"], signature_type=c["place"], realm=c["realm"])
     signer = c.get("signer", "core")
+    late = c.get("late_token") and c["token"]
+    if late:
+        # the documented reused-client flow: the client object exists before it has a token (request token, then access token, are assigned later)
+        kw.update(token=None, token_secret=None)
+    tokd = {"oauth_token": "tok", "oauth_token_secret": c["ts"]}
     if signer == "requests":
         # the requests integration: what its session puts on the wire
         import requests
         from authlib.integrations.requests_client import OAuth1Session
         sess = OAuth1Session("client-id", **kw)
+        if late:
+            sess.token = {"oauth_token": "request-token", "oauth_token_secret": "rs"}; sess.token = tokd
         prep = sess.prepare_request(requests.Request(c["method"].upper(), url, headers=headers, data=body if body else None))
         uri, headers, body = prep.url, {k: (v.decode() if isinstance(v, bytes) else v) for k, v in prep.headers.items()}, prep.body
     elif signer == "httpx":
         from authlib.integrations.httpx_client import OAuth1Client
         cl = OAuth1Client("client-id", **kw)
+        if late:
+            cl.token = {"oauth_token": "request-token", "oauth_token_secret": "rs"}; cl.token = tokd
         req = cl.build_request(c["method"].upper(), url, headers=headers, content=(body or "").encode() if body is not None else None)
         req2 = next(cl.auth.auth_flow(req))
         uri, body = str(req2.url), req2.content
@@ -133,6 +144,8 @@ def sign(c):
             headers["Content-Type"] = headers.pop("content-type")
     else:
         ca = ClientAuth("client-id", **kw)
+        if late:
+            ca.token, ca.token_secret = "tok", c["ts"]
         uri, headers, body = ca.prepare(c["method"], url, headers, body if body is not None else "")
     if isinstance(body, bytes):
         body = body.decode()
